@@ -24,7 +24,7 @@ theorem finv1_step {amp : Bool} {text : Str} {index h : Nat} (hI : FInv1 amp tex
     (hm : fenceFindFrom text index = some m) :
     FInv1 amp (text.take m.start ++ '\n' :: (Fenced.placeholder h ++ '\n' :: text.drop m.stop))
       (m.start + 1 + (Fenced.placeholder h).length) (h + 1) := by
-  haveI : NoCtlF.HtmlBound := ⟨0, false⟩
+  haveI : NoCtlF.HtmlBound := ⟨0, false, false⟩
   obtain ⟨b1, b2, b3, hls, ⟨c, rD, hD, hc⟩, hle, _, _, _⟩ := fenceFindFrom_shape hm
   have hcn : c ≠ '\n' := by rcases hc with rfl | rfl <;> decide
   have hcph : ∀ n, c ∉ Fenced.placeholder n := by
@@ -162,6 +162,7 @@ theorem fencedLoopA_inv1 (amp : Bool) : ∀ (fuel : Nat) (text : Str) (index : N
     (stash' : List Str), Fenced.fencedLoopA fuel text index stash = .ok t' stash' →
     FInv1 amp text index stash.length → (∀ e ∈ stash, NoCtl e) →
     (OwnBlock stash'.length t' ∧ (amp = false → '&' ∉ t')) ∧ ∀ e ∈ stash', NoCtl e := by
+  haveI : NoCtlF.HtmlBound := ⟨0, false, false⟩
   intro fuel
   induction fuel with
   | zero => intro text index stash t' stash' h; simp [Fenced.fencedLoopA] at h
@@ -205,6 +206,7 @@ theorem fencedLoopA_inv1 (amp : Bool) : ∀ (fuel : Nat) (text : Str) (index : N
 theorem fencedRunA_own1 {t t' : Str} {stash : List Str} (h : Fenced.fencedRunA t = .ok t' stash)
     (hn : NoCtl t) (ha : '&' ∉ t) :
     (OwnBlock stash.length t' ∧ '&' ∉ t') ∧ ∀ e ∈ stash, NoCtl e :=
+  haveI : NoCtlF.HtmlBound := ⟨0, false, false⟩
   have := fencedLoopA_inv1 false _ _ _ _ _ _ h
     ⟨ownBlock_of_noCtl hn, by simpa using hn, fun _ => ha⟩ (fun e he => by cases he)
   ⟨⟨this.1.1, this.1.2 rfl⟩, this.2⟩
@@ -213,6 +215,7 @@ theorem fencedRunA_own1 {t t' : Str} {stash : List Str} (h : Fenced.fencedRunA t
     stash entry holds STX/ETX -/
 theorem fencedRunA_own0 {t t' : Str} {stash : List Str} (h : Fenced.fencedRunA t = .ok t' stash)
     (hn : NoCtl t) : OwnBlock stash.length t' ∧ ∀ e ∈ stash, NoCtl e :=
+  haveI : NoCtlF.HtmlBound := ⟨0, false, false⟩
   have := fencedLoopA_inv1 true _ _ _ _ _ _ h
     ⟨ownBlock_of_noCtl hn, by simpa using hn, fun h => by cases h⟩ (fun e he => by cases he)
   ⟨this.1.1, this.2⟩
